@@ -7,13 +7,14 @@ the lexer itself is modelled **by contract**: the harness obtains token lists fr
 namespace Verif.Xml
 
 /-- Token of the dependency lexer, with the fields `xml.go` uses.
-`startTag n`: Data = `<`n.  `startTagPI n`: Data = `<?`n.  `attr n v`: Text = n, AttrVal = v (raw, including
-quotes; empty when there is no `=`).  `endTag d n`: Data = d (`</`n ws* `>`), Text = n.
+`startTag n`: Data = `<`n.  `startTagPI n`: Data = `<?`n.  `attr n v`: attribute with `=`, Text = n, AttrVal = v (raw, including quotes).
+`attrBare d n`: attribute token without `=` (AttrVal nil), Data = d (with its leading white space), Text = n.  `endTag d n`: Data = d (`</`n ws* `>`), Text = n.
 `cdata d t`: Data = d (`<![CDATA[`t`]]>`), Text = t.  `text d`, `comment d`, `doctype d`: Data = d. -/
 inductive XTok
   | startTag (name : List Char)
   | startTagPI (name : List Char)
   | attr (name val : List Char)
+  | attrBare (data name : List Char)
   | startTagClose
   | startTagCloseVoid
   | startTagClosePI
